@@ -47,7 +47,13 @@ type checkSpec struct {
 	// AlsoRace: after the ordinary batch, run a second batch with a worker
 	// built with -race (phase R).
 	AlsoRace bool
-	RaceRuns map[string]int
+	// RaceProcs / RaceGMP: worker processes at a time and GOMAXPROCS of each in
+	// the race phase. Fewer, wider processes give the tasks of one run real
+	// simultaneity (needed for logic races inside a few instructions, which no
+	// happens-before analysis sees); more, narrower ones give more runs.
+	RaceProcs int
+	RaceGMP   int
+	RaceRuns  map[string]int
 	// DeathIsViolation: a worker process that dies (fatal error, unrecovered
 	// panic in a risor goroutine, exit through a bypassed OS) is a violation
 	// candidate, confirmed by repeating the in-flight run alone.
@@ -67,7 +73,7 @@ var specs = map[string]*checkSpec{
 	"C18": {Property: "C18", Level: "exploration", Runs: map[string]int{"quick": 60000, "thorough": 600000}, Wall: map[string]int{"quick": 50, "thorough": 1500}},
 	"C06": {Property: "C06", Level: "exploration", GMP: 4, Runs: map[string]int{"quick": 60000, "thorough": 1000000}, Wall: map[string]int{"quick": 50, "thorough": 1500}},
 	"C07": {Property: "C07", Level: "exploration", Runs: map[string]int{"quick": 50000, "thorough": 600000}, Wall: map[string]int{"quick": 50, "thorough": 1500}},
-	"C10": {Property: "C10", Level: "exploration", AlsoRace: true, Runs: map[string]int{"quick": 30000, "thorough": 400000}, RaceRuns: map[string]int{"quick": 2500, "thorough": 60000}, Wall: map[string]int{"quick": 70, "thorough": 1800}},
+	"C10": {Property: "C10", Level: "exploration", AlsoRace: true, RaceProcs: 8, RaceGMP: 4, Runs: map[string]int{"quick": 30000, "thorough": 400000}, RaceRuns: map[string]int{"quick": 2500, "thorough": 60000}, Wall: map[string]int{"quick": 70, "thorough": 1800}},
 }
 
 type agg struct {
@@ -444,6 +450,7 @@ func cmdCheck(args []string) {
 		wall  int
 		gmp   int
 		chunk int
+		procs int // worker processes at a time (0 = all)
 	}
 	gmp := 2
 	if spec.GMP > 0 {
@@ -458,7 +465,11 @@ func cmdCheck(args []string) {
 			rruns = *runsFlag
 		}
 		phases[0].wall = wall / 2
-		phases = append(phases, phase{race: true, bin: rbin, runs: rruns, wall: wall - wall/2, gmp: 4, chunk: 12})
+		rgmp := 4
+		if spec.RaceGMP > 0 {
+			rgmp = spec.RaceGMP
+		}
+		phases = append(phases, phase{race: true, bin: rbin, runs: rruns, wall: wall - wall/2, gmp: rgmp, chunk: 12, procs: spec.RaceProcs})
 	}
 	var results []wres
 	for pi, ph := range phases {
@@ -491,7 +502,11 @@ func cmdCheck(args []string) {
 			}
 			close(jobs)
 		}()
-		for slot := 0; slot < nproc; slot++ {
+		slots := nproc
+		if ph.procs > 0 && ph.procs < nproc {
+			slots = ph.procs
+		}
+		for slot := 0; slot < slots; slot++ {
 			wg.Add(1)
 			go func(slot int) {
 				defer wg.Done()
@@ -503,7 +518,9 @@ func cmdCheck(args []string) {
 						out := filepath.Join(outDir, fmt.Sprintf("agg-%d-%d.json", pi, w))
 						logPath := filepath.Join(outDir, fmt.Sprintf("log-%d-%d.txt", pi, w))
 						logf, _ := os.Create(logPath)
-						cmd := exec.Command(bin, "-test.run", "TestWorker", "-test.timeout", "12h", "-test.cpu", "1")
+						// (-test.cpu, not only the environment: the testing package sets
+						// GOMAXPROCS itself, and the parallel windows need real parallelism)
+						cmd := exec.Command(bin, "-test.run", "TestWorker", "-test.timeout", "12h", "-test.cpu", strconv.Itoa(ph.gmp))
 						cmd.Dir = verifDir
 						env := append(os.Environ(),
 							"VERIF_CHECK="+id, "VERIF_TIER="+*tier, "VERIF_SEED="+strconv.FormatUint(seed, 10),
